@@ -69,7 +69,8 @@ func (runInfo *runInfoStruct) freezeOperands(expr ast.Expr) (ast.Expr, bool) {
 		if runInfo.err != nil {
 			return nil, false
 		}
-		frozen.Index = &ast.LiteralExpr{Literal: runInfo.rv}
+		// the index is a value (the container above stays the place it is)
+		frozen.Index = &ast.LiteralExpr{Literal: detachValue(runInfo.rv)}
 		return &frozen, true
 	case *ast.MemberExpr:
 		runInfo.expr = expr.Expr
